@@ -88,11 +88,27 @@ def _dual_case(draw):
     return {"ops": ops}
 
 
+def _huge_case(draw):
+    """well over a thousand systems (a scheduler that switches algorithm at 1024 entries shows): bulk registration with few
+    priority levels, one timestep, then registrations that tie with existing priorities, a removal and a re-registration"""
+    n = draw(st.sampled_from([1030, 1100, 1290]))
+    levels = draw(st.sampled_from([[0], [0, 1], [-1, 0, 5]]))
+    ops = [{"op": "add", "id": i, "prio": levels[(i * 7) % len(levels)], "kind": "sys"} for i in range(n)]
+    ops.append({"op": "step", "n": 1})
+    for j in range(4):
+        ops.append({"op": "add", "id": n + j, "prio": draw(st.sampled_from(levels)), "kind": "sys"})
+    k = draw(st.integers(0, n - 1))
+    ops += [{"op": "step", "n": 1}, {"op": "remove", "id": k}, {"op": "add", "id": k, "prio": draw(st.sampled_from(levels)), "kind": "sys", "same": True},
+            {"op": "step", "n": 1}]
+    return {"pool": n + 4, "ops": ops}
+
+
 def strategy(tier):
     hist = st.builds(lambda ops: {"ops": ops}, wone_of(st.lists(_op(), min_size=1, max_size=40), sized_lists(_op(), 5, 40)))
     small = wone_of(hist, hist, st.composite(_bulk_case)(), st.composite(_bulk_case)(), st.composite(_perm_case)(), st.composite(_dual_case)())
     large = st.composite(_large_case)()
-    return wone_of(*([small] * 14 + [large]))
+    huge = st.composite(_huge_case)()
+    return st.integers(0, 1499).flatmap(lambda v: huge if v == 0 else wone_of(*([small] * 14 + [large])))
 
 
 def exhaustive(tier):
@@ -142,7 +158,7 @@ class _State:
 
 
 def run_case(case):
-    POOL = max(1, min(int(case.get("pool", 7)), 300))          # number of system ids (large cases cross size thresholds)
+    POOL = max(1, min(int(case.get("pool", 7)), 1400))          # number of system ids (large cases cross size thresholds)
     states = {}
     token = 0
     next_token = [0]        # tokens are unique per system OBJECT (a re-registered object keeps its own)
@@ -164,7 +180,9 @@ def run_case(case):
     def expected_order(live):
         return [t for (_, _, _, t) in sorted(live.values(), key=lambda v: (-v[1], v[2]))]
 
-    def check_registry(where):
+    def check_registry(where, force=False):
+        if POOL > 400 and not force:           # huge pools: the full registry is compared at the timesteps only
+            return
         for m, s in states.items():
             for i in range(POOL):
                 got = s.model.systems[f"s{i}"]
@@ -240,6 +258,7 @@ def run_case(case):
         elif kind == "step":
             n = max(1, min(int(op.get("n", 1)), 5))
             del log[:]
+            check_registry(f"before the timestep after op {k}", force=True)
             bystanders = {m_: len(s_.log) for m_, s_ in states.items() if s_ is not S}
             t_before = model.systems.timestep
             if op.get("alias"):
@@ -269,7 +288,7 @@ def run_case(case):
                 labels.add("tie+levels")
             if len(prios) >= 5:
                 labels.add("live>=5")
-            for thr in (16, 32, 64, 128):
+            for thr in (16, 32, 64, 128, 1024):
                 if len(prios) > thr:
                     labels.add(f"live>{thr}")
             if any(p < 0 for p in prios) and any(p > 0 for p in prios):
